@@ -130,19 +130,22 @@ fn fail(rep: &Report, what: &str, cfg: &Cfg, pats: &[Vec<u8>], data: &[u8], si: 
     });
 }
 
-pub fn check_one(rep: &Report, cfg: &Cfg, b: &Built, pats: &[Vec<u8>], data: &[u8], si: usize, spare: Option<usize>, faults: bool) {
+pub fn check_one(rep: &Report, cfg: &Cfg, b: &Built, pats: &[Vec<u8>], data: &[u8], si: usize, spare: Option<usize>, faults: bool, do_find: bool, do_replace: bool) {
     aho_corasick::verif::set_buffer_spare_capacity(spare);
     let want = oracle::iter(pats, cfg.ci, Kind::Std, data, 0, data.len(), false);
     let repl: Vec<Vec<u8>> = (0..pats.len()).map(|i| format!("[{}]", i).into_bytes()).collect();
     let want_out = oracle::splice(data, &want, &repl);
     // C07
+    if do_find {
     let got = catch_unwind(AssertUnwindSafe(|| stream_find(b, SchedReader { data, pos: 0, sched: SCHEDS[si], i: 0, fail_at: None })));
     let ok = matches!(&got, Ok(Ok(v)) if v.len() == want.len() && v.iter().zip(&want).all(|(a, b)| a.as_ref().ok() == Some(b)));
     rep.case(!want.is_empty());
     if !ok {
         fail(rep, "find_iter", cfg, pats, data, si, spare, None, format!("expected {:?}, got {:?}", want, got));
     }
+    }
     // C08: table replacement and closure variant
+    if do_replace {
     let mut w = FaultWriter { out: vec![], fail_after: None };
     let r = catch_unwind(AssertUnwindSafe(|| stream_replace(b, SchedReader { data, pos: 0, sched: SCHEDS[si], i: 0, fail_at: None }, &mut w, &repl)));
     rep.case(!want.is_empty());
@@ -157,9 +160,21 @@ pub fn check_one(rep: &Report, cfg: &Cfg, b: &Built, pats: &[Vec<u8>], data: &[u
     if !matches!(&r, Ok(Ok(()))) || !seen_ok {
         fail(rep, "replace_all_with", cfg, pats, data, si, spare, None, format!("closure saw {:?}, expected matches {:?}", seen, want));
     }
+    }
     if !faults {
         return;
     }
+    // C18 is relative to the *fault-free run of the same code*: what the real searcher yields /
+    // writes without faults (not the definition, which is C07/C08's business)
+    let want: Vec<M> = match catch_unwind(AssertUnwindSafe(|| stream_find(b, SchedReader { data, pos: 0, sched: SCHEDS[si], i: 0, fail_at: None }))) {
+        Ok(Ok(v)) => v.into_iter().filter_map(|x| x.ok()).collect(),
+        _ => want,
+    };
+    let want_out = {
+        let mut w = FaultWriter { out: vec![], fail_after: None };
+        let _ = catch_unwind(AssertUnwindSafe(|| stream_replace(b, SchedReader { data, pos: 0, sched: SCHEDS[si], i: 0, fail_at: None }, &mut w, &repl)));
+        w.out
+    };
     // C18: a read fault at every position k
     for k in 0..=data.len() {
         let got = catch_unwind(AssertUnwindSafe(|| stream_find(b, SchedReader { data, pos: 0, sched: SCHEDS[si], i: 0, fail_at: Some(k) })));
@@ -199,8 +214,11 @@ pub fn run(args: &Args) -> Report {
     let thorough = args.thorough();
     let seed = args.num("seed", 0);
     let faults = args.get("faults", "0") == "1";
+    let asp = args.get("aspects", if faults { "" } else { "find,replace" });
+    let do_find = asp.contains("find");
+    let do_replace = asp.contains("replace");
     let rep = Report::new(
-        if faults { "stream-faults" } else { "stream" },
+        &format!("stream[{}{}]", asp, if faults { "+faults" } else { "" }),
         format!("non-empty pattern lists over {{a,b}} (<=3 patterns of length 1..3{}) + long-pattern lists; streams = all strings over {{a,b}} up to length {} + random streams up to 40 bytes; read schedules {:?}; roll-buffer spare capacities {:?} (hook H2; None = the default 64 KiB); {}",
                 if thorough { "" } else { ", 3-lists sampled 1/9" }, if thorough { 7 } else { 5 }, SCHEDS, SPARES,
                 if faults { "a read fault at every byte position and a write fault after every output length" } else { "no faults" }),
@@ -213,7 +231,7 @@ pub fn run(args: &Args) -> Report {
         let si = args.num("one-sched", 0);
         let spare = args.get("one-spare", "-").parse().ok();
         if let Ok(b) = build(&cfg, &pats) {
-            check_one(&rep, &cfg, &b, &pats, &data, si, spare, args.get("one-fault", "-") != "-");
+            check_one(&rep, &cfg, &b, &pats, &data, si, spare, args.get("one-fault", "-") != "-", true, true);
         }
         return rep;
     }
@@ -247,7 +265,7 @@ pub fn run(args: &Args) -> Report {
                         if !thorough && (di + si + pi + ci) % (if faults { 5 } else { 2 }) != 0 {
                             continue;
                         }
-                        check_one(&rep, cfg, &b, pats, data, si, spare, faults);
+                        check_one(&rep, cfg, &b, pats, data, si, spare, faults, do_find, do_replace);
                         if rep.full() {
                             return;
                         }
